@@ -11,7 +11,7 @@ use serde::{Deserialize, Serialize};
 use serde_json::json;
 use std::collections::HashMap;
 
-pub const RULE: &str = "operation sequences over Insert(key, depth, bound, score, move; age = current generation, as the search does) / Probe(key) / NewSearch(x1..300) / Reset / Resize(mb) on TranspositionTable<SearchTranspositionTableData> of 0, 1, 2, 3 MB (thorough: also 64 and 1024). Keys are constructed to collide: key = slot + mult * entries for a few chosen slots, plus a few random keys. Reference model: slot -> set of admissible entries with the true (unbounded) search counter: a probe may return data only for exactly the stored key and then exactly the model's entry; entries of earlier searches always give way; within one search an exact entry is displaced only by an exact or deeper one; where the statement is silent (non-exact old entry, same search, new not deeper and not exact) both outcomes are kept and narrowed by the next observation; Reset and size-changing Resize empty the table (every probe misses, occupied == 0); occupied equals the model's count and occupancy() = floor(1000*occupied/entries) +- 1; no panic for any size or number of searches. Non-trivial = sequence with a same-slot different-key insert and a NewSearch between colliding inserts; distinct by op list.";
+pub const RULE: &str = "operation sequences over Insert(key, depth, bound, score, move; age = current generation, as the search does) / Probe(key) / NewSearch(x1..300) / Reset / Resize(mb) on TranspositionTable<SearchTranspositionTableData> of 0, 1, 2, 3 MB (thorough: also 64 and 1024). Keys are constructed to collide: key = slot + mult * entries for a few chosen slots, with multipliers that make the colliding keys differ only in low bits, only above bit 32 or only above bit 48, plus a few random keys. Reference model: slot -> set of admissible entries with the true (unbounded) search counter: a probe may return data only for exactly the stored key and then exactly the model's entry; entries of earlier searches always give way; within one search an exact entry is displaced only by an exact or deeper one; where the statement is silent (non-exact old entry, same search, new not deeper and not exact) both outcomes are kept and narrowed by the next observation; Reset and size-changing Resize empty the table (every probe misses, occupied == 0); occupied equals the model's count and occupancy() = floor(1000*occupied/entries) +- 1; no panic for any size or number of searches. Non-trivial = sequence with a same-slot different-key insert and a NewSearch between colliding inserts; distinct by op list.";
 
 #[derive(Serialize, Deserialize, Clone, Debug, PartialEq)]
 pub enum Op {
@@ -40,6 +40,11 @@ struct Entry {
     mv: u16,
     search: u64, // true search counter at insertion
 }
+
+/// Multipliers of the table length added to a slot index: small ones give keys that differ in low
+/// bits, the large ones keys that share a slot AND their low 32 / 48 bits (entries are 2^16 * mb),
+/// so that a key comparison on part of the key cannot hide.
+const MULTS: [u64; 8] = [0, 1, 2, 3, 1 << 16, 3 << 16, 1 << 32, 5 << 32];
 
 fn bound_of(b: u8) -> NodeBound {
     match b % 3 {
@@ -112,10 +117,11 @@ fn simulate(c: &Case, st: &mut Stats, alias_ages: bool) -> Result<(), (usize, Fa
     let mut slot_searches: HashMap<u64, Vec<u64>> = HashMap::new();
     let key_for = |m: &Model, slot: u8, mult: u8, slots: &Vec<u32>| -> u64 {
         let s = slots[slot as usize % slots.len()] as u64;
+        let k = MULTS[mult as usize % MULTS.len()];
         if m.entries == 0 {
-            s + mult as u64 * 65536
+            s.wrapping_add(k.wrapping_mul(65536))
         } else {
-            (s % m.entries) + mult as u64 * m.entries
+            (s % m.entries).wrapping_add(k.wrapping_mul(m.entries))
         }
     };
     for (i, op) in c.ops.iter().enumerate() {
@@ -294,9 +300,10 @@ fn check_empty(tt: &TranspositionTable<SearchTranspositionTableData>, m: &Model,
     }
     // every key used so far must miss
     for slot in 0..c.slots.len() as u8 {
-        for mult in 0..4u8 {
+        for mult in 0..MULTS.len() {
             let s = c.slots[slot as usize] as u64;
-            let key = if m.entries == 0 { s + mult as u64 * 65536 } else { (s % m.entries) + mult as u64 * m.entries };
+            let k = MULTS[mult];
+            let key = if m.entries == 0 { s.wrapping_add(k.wrapping_mul(65536)) } else { (s % m.entries).wrapping_add(k.wrapping_mul(m.entries)) };
             if let Some(d) = tt.get(&ZobristHash(key)) {
                 return Err(Fail::new("clear:entry_survives", format!("op #{i} {op:?}: key {key:#x} still answers {d:?} after the table was emptied")));
             }
@@ -311,10 +318,10 @@ pub fn run(run: &mut Run) -> &'static str {
     let szs = sizes(tier);
     let szs2 = szs.clone();
     let op = prop_oneof![
-        10 => (0u8..4, 0u8..4, prop_oneof![Just(0u8), Just(1), Just(2), Just(5), any::<u8>()], 0u8..3, prop_oneof![Just(0i16), Just(31990), Just(-31990), any::<i16>()], any::<u16>())
+        10 => (0u8..4, 0u8..8, prop_oneof![Just(0u8), Just(1), Just(2), Just(5), any::<u8>()], 0u8..3, prop_oneof![Just(0i16), Just(31990), Just(-31990), any::<i16>()], any::<u16>())
             .prop_map(|(slot, mult, depth, bound, score, mv)| Op::Insert { slot, mult, depth, bound, score, mv }),
         1 => (any::<u64>(), any::<u8>(), 0u8..3, any::<i16>()).prop_map(|(key, depth, bound, score)| Op::InsertRandom { key, depth, bound, score }),
-        8 => (0u8..4, 0u8..4).prop_map(|(slot, mult)| Op::Probe { slot, mult }),
+        8 => (0u8..4, 0u8..8).prop_map(|(slot, mult)| Op::Probe { slot, mult }),
         1 => any::<u64>().prop_map(|key| Op::ProbeRandom { key }),
         3 => prop_oneof![6 => Just(1u16), 2 => 2u16..6, 1 => Just(255u16), 1 => Just(256u16), 1 => 250u16..300].prop_map(|times| Op::NewSearch { times }),
         1 => Just(Op::Reset),
@@ -328,8 +335,8 @@ pub fn run(run: &mut Run) -> &'static str {
         // the largest advertised size: a handful of sequences on a 1024 MB table
         let big = (proptest::collection::vec(any::<u32>(), 1..4), proptest::collection::vec(
             prop_oneof![
-                (0u8..4, 0u8..4, any::<u8>(), 0u8..3, any::<i16>(), any::<u16>()).prop_map(|(slot, mult, depth, bound, score, mv)| Op::Insert { slot, mult, depth, bound, score, mv }),
-                (0u8..4, 0u8..4).prop_map(|(slot, mult)| Op::Probe { slot, mult }),
+                (0u8..4, 0u8..8, any::<u8>(), 0u8..3, any::<i16>(), any::<u16>()).prop_map(|(slot, mult, depth, bound, score, mv)| Op::Insert { slot, mult, depth, bound, score, mv }),
+                (0u8..4, 0u8..8).prop_map(|(slot, mult)| Op::Probe { slot, mult }),
                 (1u16..3).prop_map(|times| Op::NewSearch { times }),
             ], 1..40))
             .prop_map(|(slots, ops)| Case { initial_mb: 1024, slots, ops });
